@@ -132,6 +132,9 @@ def check(ck: Checker) -> None:
     from . import round7 as _r7
 
     _r7.failed_copy_never_trusted(ck, "C15.add")
+    from . import round8 as _r8
+
+    _r8.post_copy_loop_always_runs(ck, "C15.add")
     from . import round4 as _r4
 
     _r4.hashinfo_identity(ck, "C15.treelast")
